@@ -12,19 +12,35 @@ LEVEL = "proof"
 HASHSEEDS = {"quick": [0, 1, 2, 3], "thorough": [0, 1, 2, 3, 4, 5, 6, 7]}
 BUDGET_S = {"quick": 150, "thorough": 1500}
 EXHAUSTIVE = {"quick": False, "thorough": False}
-RULE = ("random 2-TBN templates: 1-3 variables per slice, cardinalities 2-3, random intra-slice DAG, random "
-        "inter-slice edges (persistence and cross edges, one or several interface nodes), strictly positive "
-        "dyadic CPDs (a few with zeros); 1-3 query variables in slices 0..T (T<=4), 0-4 evidence items on "
-        "interface and non-interface nodes in several slices; forward_inference, backward_inference and query; "
-        "string/int node names, optional string state names; three template classes (every name has an intra "
-        "edge and inter-edge heads=tails / heads!=tails / a name without intra edge).  Separate streams: "
-        "initialize_initial_state with omitted CPDs, permuted CPD evidence order, cardinality 2-4, state names; "
-        "get_constant_bn with t_slice 0..3; add_edge normalisation/mirroring incl. rejected edges; sessions: ONE "
-        "DBNInference object answering 3-8 questions where consecutive questions often keep the evidence variables "
-        "(esp. of slice 0) and change their states, change only the query, or repeat an earlier question - each answer "
-        "must equal the fresh-engine answer.  A case is "
-        "non-trivial when the template has >=1 inter edge (inference) / >=1 CPD to complete (init); distinct = "
-        "distinct canonical (kind, template, question)")
+RULE = ("random 2-TBN templates: 1-3 variables per slice (some with 4-5 binary variables = up to 10 variables in the "
+        "1.5-slice tree, some with cardinality-1 variables), cardinalities 2-3, random intra-slice DAG, random "
+        "inter-slice edges (persistence and cross edges, one or several interface nodes), intra and inter edges added "
+        "interleaved in random order, strictly positive dyadic CPDs (a few with zeros); 1-3 query variables in slices "
+        "0..T (T<=4), 0-4 evidence items on interface and non-interface nodes in several slices; forward_inference "
+        "(also args=None and args='potential': the interface potentials are compared with the model's), "
+        "backward_inference and query (also args='exact'); evidence None or {} when empty; node names str/int (incl. 0)/"
+        "substring-and-underscore names (x1, x10, x_0, x1_1)/tuples/mixed unsortable types (incl. '' and 0); optional "
+        "string state names; CPDs built from nested lists or from a C-contiguous float64 buffer that is overwritten "
+        "afterwards; DBN built nodes-first / edges-only / via the constructor / nodes-last; numpy and (12%) torch "
+        "backend; three template classes (every name has an intra edge and inter-edge heads=tails / heads!=tails / a "
+        "name without intra edge).  After every query the caller's variables list, evidence dict and the network's CPDs "
+        "and edges must be unchanged.  Streams: zero-heavy smoothing (20-60% exact zeros; impossible evidence skipped); "
+        "tiny probabilities 2^-20..2^-40 (evidence totals down to ~1e-40) compared RELATIVELY (1e-7) to the exact model "
+        "value (below ~1e-300 floats underflow by construction: not generated); rejected calls (query variable observed, "
+        "no query variable, add_cpds with a later invalid argument must add nothing, negative time slices, add_edges_from "
+        "keeps exactly the edges before the first rejected one); sessions on ONE DBNInference object (3-8 questions, "
+        "restated evidence states, repeated questions, returned factors overwritten by the caller in between); "
+        "get_constant_bn sessions (independent results, five mutations of the returned network, simulate afterwards); "
+        "edit sessions on ONE DynamicBayesianNetwork (use, then remove_cpds by object/by node + add_cpds, add_edge, "
+        "networkx remove_edge, then getters / get_constant_bn / a new engine must match a freshly built object); "
+        "initialize_initial_state with omitted CPDs, permuted CPD evidence order, cardinality 2-4, state names that are "
+        "strings / 1-based / descending integers (equal across variables), completed CPDs must not share memory with "
+        "their sources; get_constant_bn with t_slice 0..3 (keyword, positional, default); add_edge normalisation/"
+        "mirroring incl. rejected edges, getters with default/explicit/slice-1/slice-3 arguments.  Not applicable to "
+        "this property: pandas frames (fit/simulate are outside the statement; simulate is only used as an observer of "
+        "get_constant_bn), the order of state names across two CPDs (no DBN code looks at it), magnitudes >= 1e16 "
+        "(probabilities), optional numeric bounds.  A case is non-trivial when the template has >=1 inter edge "
+        "(inference) / >=1 CPD to complete (init); distinct = distinct canonical (kind, template, question)")
 TRUSTED_BASE = ["pgmpy BeliefPropagation/junction tree (replaced by its specification in the model: normalised marginal "
                 "of the product of the tree's factors; that equality is property C02)",
                 "pgmpy VariableElimination on the harness-built unrolled BayesianNetwork is an independent tie, "
@@ -41,6 +57,7 @@ F_IFACE = "dbn-interface-heads-vs-tails"
 F_BWD = "dbn-backward-interface-evidence"
 F_ISOL = "dbn-isolated-variable"
 F_RESET = "dbn-query-resets-belief"
+F_TORCH = "torch-cpd-constructor-aliases-values"  # reported, not (yet) listed
 
 SPEC_LIMIT = 6000
 
@@ -60,6 +77,14 @@ def _col(rng, card, zeros):
         col = [[0, den] for _ in range(card)]
         for i, x in zip(supp, parts):
             col[i] = [x, den]
+        return col
+    if zeros == "tiny" and card >= 2:
+        # one or two states of probability 2^-k (exact in binary floating point together with the complement)
+        k = rng.choice([20, 30, 40])
+        den = 2 ** k
+        col = [[1, den] for _ in range(card)]
+        big = rng.randrange(card)
+        col[big] = [den - (card - 1), den]
         return col
     den = rng.choice([8, 16, 64])
     while True:
@@ -117,7 +142,9 @@ def gen_template(rng, cls, nmax=3, cards=(2, 3), pe=None, zeros=None, need_non_i
             cpds.append({"var": [v, 0], "pars": p0, "vals": _table(rng, card[v], [card[u] for u, _ in p0], zeros_)})
             cpds.append({"var": [v, 1], "pars": p1, "vals": _table(rng, card[v], [card[u] for u, _ in p1], zeros_)})
         rng.shuffle(cpds)
-        return {"n": n, "card": card, "intra": intra, "inter": inter, "cpds": cpds}
+        eorder = list(range(len(intra) + len(inter)))
+        rng.shuffle(eorder)  # intra and inter edges are added interleaved (predecessor order of the mirror nodes)
+        return {"n": n, "card": card, "intra": intra, "inter": inter, "cpds": cpds, "eorder": eorder}
     raise RuntimeError("no template")
 
 
@@ -185,16 +212,24 @@ def gen_session(rng, t, tmax):
 def cases(tier, seed):
     rng = random.Random(seed)
     out = []
-    n_inf = 260 if tier == "quick" else 2600
+    n_inf = 220 if tier == "quick" else 2400
     for i in range(n_inf):
         r = rng.random()
         cls = "valid" if r < 0.66 else ("iface" if r < 0.88 else "nointra")
-        t = gen_template(rng, cls)
+        r2 = rng.random()
+        if r2 < 0.07:
+            t = gen_template(rng, cls, nmax=5, cards=(2,), pe=0.2)       # up to 10 variables in the 1.5-slice tree
+            while t["n"] < 4:
+                t = gen_template(rng, cls, nmax=5, cards=(2,), pe=0.2)
+        elif r2 < 0.13:
+            t = gen_template(rng, cls, cards=(1, 2, 3))                  # cardinality-1 variables
+        else:
+            t = gen_template(rng, cls)
         states = 1
         for c_ in t["card"]:
             states *= c_
         # exact rationals of the backward pass grow quickly: T = 4 only for <= 12 states per slice
-        qs, ev = gen_question(rng, t, 4 if (rng.random() < 0.4 and states <= 12) else 3)
+        qs, ev = gen_question(rng, t, 2 if t["n"] >= 4 else (4 if (rng.random() < 0.4 and states <= 12) else 3))
         use_init = rng.random() < 0.3
         if use_init:
             # variables without inter parents: slice-1 CPD = slice-0 CPD (same evidence order, same table), so it
@@ -208,26 +243,27 @@ def cases(tier, seed):
                     c["vals"] = list(by_[(v, 0)]["vals"])
         out.append({"kind": "infer", "cls": cls, "t": t, "qs": qs, "ev": ev,
                     "mode": rng.choice(["fwd", "bwd", "query"]),
-                    "style": rng.choice(["str", "int"]),
+                    "style": rng.choice(STYLES),
                     "named": rng.random() < 0.12, "use_init": use_init})
     # the documented example of the class, all questions
-    n_init = 120 if tier == "quick" else 1200
+    n_init = 100 if tier == "quick" else 1100
     for i in range(n_init):
         t = gen_template(rng, "any", nmax=4, cards=(2, 2, 3, 4), pe=rng.choice([0.05, 0.15, 0.3]))
         # per name: both CPDs given / only slice 0 / only slice 1 / none
         pat = {v: rng.choice(["both", "s0", "s0", "s1", "s1", "none"]) for v in range(t["n"])}
         present = [pat[c["var"][0]] == "both" or (pat[c["var"][0]] == "s0" and c["var"][1] == 0)
                    or (pat[c["var"][0]] == "s1" and c["var"][1] == 1) for c in t["cpds"]]
-        out.append({"kind": "init", "t": t, "present": present, "style": rng.choice(["str", "int"]),
-                    "named": rng.random() < 0.3})
+        out.append({"kind": "init", "t": t, "present": present, "style": rng.choice(STYLES),
+                    "named": rng.choice([False, False, True, "onebased", "desc"])})
     n_cb = 60 if tier == "quick" else 500
     for i in range(n_cb):
         t = gen_template(rng, rng.choice(["valid", "iface", "nointra"]))
-        out.append({"kind": "constbn", "t": t, "k": rng.choice([0, 0, 1, 3]), "style": rng.choice(["str", "int"]),
-                    "named": rng.random() < 0.25, "isolated": rng.random() < 0.15})
+        out.append({"kind": "constbn", "t": t, "k": rng.choice([0, 0, 1, 3]), "style": rng.choice(STYLES),
+                    "named": rng.choice([False, False, False, True, "onebased", "desc"]), "isolated": rng.random() < 0.15,
+                    "default_arg": rng.random() < 0.5})
     # zero-heavy smoothing: deterministic/sparse CPDs, backward_inference/query over >= 2 slices, evidence on
     # non-interface variables (it rules out interface states: the forward potential gets exact zeros)
-    n_z = 90 if tier == "quick" else 800
+    n_z = 70 if tier == "quick" else 700
     for i in range(n_z):
         t = gen_template(rng, "valid", cards=(2, 2, 3), zeros="heavy", need_non_interface=True)
         tails_ = set(u for u, _ in t["inter"])
@@ -244,7 +280,7 @@ def cases(tier, seed):
         # impossible ones are reported as skipped (zero-probability-evidence)
         out.append({"kind": "infer", "cls": "valid", "t": t, "qs": qs,
                     "ev": [[x, rng.randrange(t["card"][x[0]])] for x in evv],
-                    "mode": rng.choice(["bwd", "query"]), "style": rng.choice(["str", "int"]),
+                    "mode": rng.choice(["bwd", "query"]), "style": rng.choice(STYLES),
                     "named": False, "use_init": False, "zeros": True})
     # get_constant_bn sessions: the returned network is the caller's; mutating it must not leak into later calls
     n_cs = 60 if tier == "quick" else 500
@@ -253,9 +289,9 @@ def cases(tier, seed):
         out.append({"kind": "constbn_session", "t": t, "k": rng.choice([0, 0, 1, 2]),
                     "mutation": rng.choice(["replace_cpd", "remove_node", "add_node", "remove_cpds", "write_values"]),
                     "target": rng.randrange(2 * t["n"]), "simulate": rng.random() < 0.5,
-                    "style": rng.choice(["str", "int"]), "named": False})
+                    "style": rng.choice(STYLES), "named": False})
     # sessions: one engine object, several questions (cross-query state would show here)
-    n_s = 70 if tier == "quick" else 600
+    n_s = 55 if tier == "quick" else 550
     for i in range(n_s):
         r = rng.random()
         cls = "valid" if r < 0.85 else ("iface" if r < 0.95 else "nointra")
@@ -264,7 +300,7 @@ def cases(tier, seed):
         for c_ in t["card"]:
             states *= c_
         out.append({"kind": "session", "t": t, "steps": gen_session(rng, t, 3 if states <= 12 else 2),
-                    "style": rng.choice(["str", "int"]), "use_init": False})
+                    "style": rng.choice(STYLES), "use_init": False})
     n_g = 80 if tier == "quick" else 600
     for i in range(n_g):
         n = rng.randint(1, 4)
@@ -288,7 +324,60 @@ def cases(tier, seed):
             else:
                 edges.append([[u, 0], [v, 2]])
         out.append({"kind": "graph", "n": n, "edges": edges, "extra": [v for v in range(n) if rng.random() < 0.3],
-                    "style": rng.choice(["str", "int"])})
+                    "style": rng.choice(STYLES)})
+    # tiny probabilities (2^-20 .. 2^-40): evidence of total probability down to ~1e-40; relative comparison
+    n_t = 40 if tier == "quick" else 400
+    for i in range(n_t):
+        t = gen_template(rng, "valid", nmax=2, cards=(2, 2, 3), zeros="tiny")
+        if t["n"] < 2:
+            t = gen_template(rng, "valid", nmax=3, cards=(2,), zeros="tiny")
+        qs, ev = gen_question(rng, t, 3)
+        qs = qs[:1]
+        out.append({"kind": "infer", "cls": "valid", "t": t, "qs": qs, "ev": ev, "mode": rng.choice(["fwd", "bwd", "query"]),
+                    "style": rng.choice(STYLES), "named": False, "use_init": False, "tiny": True})
+    # rejected calls: a query variable that is observed; no query variable
+    n_r = 24 if tier == "quick" else 200
+    for i in range(n_r):
+        t = gen_template(rng, "valid")
+        qs, ev = gen_question(rng, t, 3)
+        if rng.random() < 0.75:
+            q = rng.choice(qs)
+            ev = [e for e in ev if e[0] != q] + [[q, rng.randrange(t["card"][q[0]])]]
+            rng.shuffle(ev)
+            rej = "query-in-evidence"
+        else:
+            qs = []
+            rej = "no-query"
+        out.append({"kind": "infer", "cls": "valid", "t": t, "qs": qs, "ev": ev, "mode": rng.choice(["fwd", "bwd", "query"]),
+                    "style": rng.choice(STYLES), "named": False, "use_init": False, "reject": rej})
+    # edits of the DBN object between uses: replaced CPD, added / removed inter edge (networkx remove_edge)
+    n_e = 36 if tier == "quick" else 400
+    for i in range(n_e):
+        t = gen_template(rng, rng.choice(["valid", "valid", "valid", "iface"]))
+        q1, e1 = gen_question(rng, t, 2)
+        q2, e2 = gen_question(rng, t, 2)
+        out.append({"kind": "edit_session", "t": t, "op": rng.choice(["replace_cpd", "replace_cpd", "add_inter", "remove_inter"]),
+                    "pick": rng.randrange(1000), "by_node": rng.random() < 0.5, "tseed": rng.randrange(10 ** 9),
+                    "q1": {"qs": q1[:1], "ev": e1, "mode": rng.choice(["fwd", "query"])},
+                    "q2": {"qs": q2[:1], "ev": e2, "mode": rng.choice(["fwd", "query"])},
+                    "style": rng.choice(STYLES)})
+    # add_cpds(*cpds) with a LATER invalid CPD; getters with invalid / default / explicit arguments
+    n_k = 30 if tier == "quick" else 250
+    for i in range(n_k):
+        t = gen_template(rng, "any")
+        out.append({"kind": "reject_misc", "t": t, "k": rng.randrange(len(t["cpds"]) + 1), "pos": rng.randrange(3),
+                    "style": rng.choice(STYLES)})
+    # construction routes / argument forms / backend, independent of the stream
+    for c in out:
+        if c["kind"] in ("infer", "init", "constbn", "session", "edit_session", "constbn_session"):
+            c["nd"] = rng.random() < 0.4
+            c["build"] = rng.choice(["nodes_first", "nodes_first", "edges_only", "ctor", "nodes_last"])
+        if c["kind"] == "infer":
+            c["empty_ev_dict"] = rng.random() < 0.5
+            c["potential"] = rng.random() < 0.35
+            c["explicit_args"] = rng.random() < 0.5
+        if c["kind"] in ("infer", "init", "constbn") and not c.get("named") and rng.random() < 0.12:
+            c["backend"] = "torch"
     return out
 
 
@@ -323,13 +412,30 @@ def shrink(case):
 
 
 # ------------------------------------------------------------------ helpers
-STR_NAMES = ["A", "B", "C", "D"]
-INT_NAMES = [7, 0, 3, 12]
-STATE_POOL = [["lo", "hi", "mid", "top"], ["x", "y", "z", "w"], ["off", "on", "err", "idle"], ["p", "q", "r", "s"]]
+NAME_POOLS = {
+    "str": ["A", "B", "C", "D", "E", "F"],
+    "int": [7, 0, 3, 12, 5, 1],
+    # one name a substring of another, names that look like "<name>_<slice>" (get_constant_bn's string scheme)
+    "sub": ["x1", "x10", "x", "x_0", "x1_1", "x_"],
+    "tuple": [("v", 1), ("v", 10), ("w", 0), ("v", 0), ("w", 1), ("v", 2)],
+    # mixed types that do not sort against each other, falsy names
+    "mixed": ["a", 5, ("t", 1), "", 0, ("t", 2)],
+}
+STYLES = ["str", "int", "sub", "tuple", "mixed"]
+STATE_POOL = [["lo", "hi", "mid", "top"], ["x", "y", "z", "w"], ["off", "on", "err", "idle"], ["p", "q", "r", "s"],
+              ["k0", "k1", "k2", "k3"], ["u", "v", "w", "t"]]
+
+
+def name_pool(case):
+    return NAME_POOLS[case.get("style", "str")]
+
+
+def str_pool(case):
+    return [str(x) for x in name_pool(case)]
 
 
 def nm(case, i):
-    return (STR_NAMES if case.get("style", "str") == "str" else INT_NAMES)[i]
+    return name_pool(case)[i]
 
 
 def frs(vals):
@@ -337,7 +443,14 @@ def frs(vals):
 
 
 def state_label(case, v, i):
-    return STATE_POOL[v][i] if case.get("named") else i
+    """state names: False = default integers; True = strings; 'onebased' = 1..k; 'desc' = 9, 8, 7, ... (integers that
+    are not their positions, equal across variables)"""
+    kind = case.get("named")
+    if kind == "onebased":
+        return i + 1
+    if kind == "desc":
+        return 9 - i
+    return STATE_POOL[v][i] if kind else i
 
 
 def state_code(case, v, lab):
@@ -359,15 +472,28 @@ def mk_tabular(case, c, card):
     vals = [flat[r * ncol:(r + 1) * ncol] for r in range(card[v])]
     sn = None
     if case.get("named"):
-        sn = {(nm(case, v), s): STATE_POOL[v][:card[v]]}
+        sn = {(nm(case, v), s): [state_label(case, v, i) for i in range(card[v])]}
         for u, k in c["pars"]:
-            sn[(nm(case, u), k)] = STATE_POOL[u][:card[u]]
+            sn[(nm(case, u), k)] = [state_label(case, u, i) for i in range(card[u])]
     kw = {"state_names": sn} if sn else {}
+    if case.get("nd"):
+        # C-contiguous float64 buffer handed to the constructor and overwritten afterwards (a view would be poisoned)
+        import numpy as np
+        buf = np.ascontiguousarray(np.array(vals, dtype=np.float64))
+        out = TabularCPD((nm(case, v), s), card[v], buf, evidence=pars or None, evidence_card=pc or None, **kw)
+        buf[...] = -7.0
+        return out
     return TabularCPD((nm(case, v), s), card[v], vals, evidence=pars or None, evidence_card=pc or None, **kw)
 
 
 def edges_of(t):
-    return [[[u, 0], [v, 0]] for u, v in t["intra"]] + [[[u, 0], [v, 1]] for u, v in t["inter"]]
+    """edges in the order they are added (explicit t['edges'] after an edit; else intra + inter permuted by t['eorder'])"""
+    if "edges" in t:
+        return t["edges"]
+    base = [[[u, 0], [v, 0]] for u, v in t["intra"]] + [[[u, 0], [v, 1]] for u, v in t["inter"]]
+    if "eorder" in t and len(t["eorder"]) == len(base):
+        return [base[i] for i in t["eorder"]]
+    return base
 
 
 class CpdNodeMissing(Exception):
@@ -376,10 +502,23 @@ class CpdNodeMissing(Exception):
 
 def build_dbn(case, t, cpds, extra_nodes=True):
     from pgmpy.models import DynamicBayesianNetwork as DBN
-    d = DBN()
-    if extra_nodes:
+    ebunch = [((nm(case, a[0]), a[1]), (nm(case, b[0]), b[1])) for a, b in edges_of(t)]
+    route = case.get("build", "nodes_first")
+    touched_all = set(x[0] for e in edges_of(t) for x in e) == set(range(t["n"]))
+    if route == "ctor" and touched_all and ebunch:
+        d = DBN(ebunch)
+    elif route == "edges_only" and touched_all:
+        d = DBN()
+        d.add_edges_from(ebunch)
+    elif route == "nodes_last":
+        d = DBN()
+        d.add_edges_from(ebunch)
         d.add_nodes_from([nm(case, i) for i in range(t["n"])])
-    d.add_edges_from([((nm(case, a[0]), a[1]), (nm(case, b[0]), b[1])) for a, b in edges_of(t)])
+    else:
+        d = DBN()
+        if extra_nodes:
+            d.add_nodes_from([nm(case, i) for i in range(t["n"])])
+        d.add_edges_from(ebunch)
     try:
         d.add_cpds(*[mk_tabular(case, c, t["card"]) for c in cpds])
     except ValueError as e:
@@ -400,8 +539,9 @@ def wire_cpd(case, c, card):
 
 def unname(case, n, x):
     """pgmpy node (DynamicNode or tuple) -> [index, slice]"""
-    pool = STR_NAMES if case.get("style", "str") == "str" else INT_NAMES
-    return [pool.index(x[0]), int(x[1])]
+    pool = name_pool(case)
+    idx = [i for i, y in enumerate(pool) if type(y) is type(x[0]) and y == x[0]]
+    return [idx[0], int(x[1])]
 
 
 def cpd_from_pgmpy(case, c, n):
@@ -540,11 +680,18 @@ def run_infer(case, drv, shared=None):
     touched = set(x for e in t["intra"] for x in e)
     cls = "nointra" if touched != set(range(n)) else ("valid" if heads == tails else "iface")
     iev = any(x[0] in tails for x, _ in ev)
-    T = max([q[1] for q in qs] + [x[1] for x, _ in ev])
+    T = max([q[1] for q in qs] + [x[1] for x, _ in ev], default=0)
     tags = ["infer", "cls=" + cls, "mode=" + mode, "n=%d" % n, "T=%d" % T, "nev=%d" % len(ev), "nq=%d" % len(qs),
             "iface-evidence=%s" % iev, "ninter=%d" % len(t["inter"]), "maxcard=%d" % max(card)]
     if case.get("named"):
         tags.append("named-states")
+    for flag in ("tiny", "nd", "backend", "reject"):
+        if case.get(flag):
+            tags.append("%s=%s" % (flag, case[flag]))
+    if 1 in card:
+        tags.append("cardinality-1-variable")
+    tags.append("style=" + case.get("style", "str"))
+    tags.append("build=" + case.get("build", "nodes_first"))
     if case.get("zeros"):
         nz = sum(1 for c in t["cpds"] for a, _ in c["vals"] if a == 0)
         tot = sum(len(c["vals"]) for c in t["cpds"])
@@ -563,20 +710,37 @@ def run_infer(case, drv, shared=None):
             shared["engine"] = (inf, impl)
             shared["used_init"] = "via-initialize_initial_state" in tags
     named_crash = None
+    pot_impl = None
     if impl is None:
+        import copy
         pq = [(nm(case, v), s) for v, s in qs]
-        pev = {(nm(case, x[0]), x[1]): state_label(case, x[0], st) for x, st in ev} or None
+        pev = {(nm(case, x[0]), x[1]): state_label(case, x[0], st) for x, st in ev}
+        if not pev:
+            pev = {} if case.get("empty_ev_dict") else None
+        # argument purity: the caller's list / dict and the network's CPDs are not touched
+        pq_snap, pev_snap = list(pq), (dict(pev) if pev is not None else None)
+        dbn_obj = inf.model
+        cpd_snap = [(list(c.variables), [float(x) for x in c.values.ravel()]) for c in dbn_obj.cpds]
+        edge_snap = sorted(map(str, dbn_obj.edges()))
         try:
             if mode == "fwd":
-                r = inf.forward_inference(pq, pev)
+                r = inf.forward_inference(pq, pev, None) if case.get("explicit_args") else inf.forward_inference(pq, pev)
             elif mode == "bwd":
                 r = inf.backward_inference(pq, pev)
             else:
-                r = inf.query(pq, pev)
+                r = inf.query(pq, pev, "exact") if case.get("explicit_args") else inf.query(pq, pev)
             impl = ("ok", {tuple(unname(case, n, k)): r[k] for k in r})
+            if shared is not None:
+                shared["last"] = r
+            if mode == "fwd" and case.get("potential"):
+                pot_impl = inf.forward_inference(pq, pev, "potential")
         except ValueError as e:
             if "Factors defined on clusters of variable not" in str(e):
                 impl = ("err", 4)
+            elif "Can't have the same variables in both" in str(e):
+                impl = ("err", 8)
+            elif "max()" in str(e) and not qs:
+                impl = ("err", 9)
             else:
                 raise
         except (IndexError, KeyError) as e:
@@ -585,6 +749,13 @@ def run_infer(case, drv, shared=None):
                 named_crash = repr(e)
             else:
                 raise
+        if pq != pq_snap or pev != pev_snap:
+            return bad("mutated-argument", {"variables": [str(pq), str(pq_snap)], "evidence": [str(pev), str(pev_snap)]},
+                       key=key, tags=tags)
+        now = [(list(c.variables), [float(x) for x in c.values.ravel()]) for c in dbn_obj.cpds]
+        if now != cpd_snap or sorted(map(str, dbn_obj.edges())) != edge_snap:
+            return bad("mutated-argument", {"what": "the DynamicBayesianNetwork given to DBNInference changed during a query"},
+                       key=key, tags=tags)
 
     # --- model
     wire = [wire_cpd(dict(case, named=False), c, card) for c in cpds]
@@ -599,6 +770,12 @@ def run_infer(case, drv, shared=None):
                                          "is missing from the start/1.5-slice BayesianNetwork", "intra": t["intra"],
                                  "inter": t["inter"], "n": n}, finding=F_NOINTRA, key=key, tags=tags + ["err=3"])
         return bad("impl!=model", {"impl": str(impl)[:300], "model": str(model)[:300]}, key=key, tags=tags)
+
+    if case.get("reject") or impl in (("err", 8), ("err", 9)) or model in (("err", 8), ("err", 9)):
+        if impl == model and impl[0] == "err":
+            return ok(key=key, tags=tags + ["rejected-call", "err=%d" % impl[1]])
+        return bad("impl!=model", {"what": "call that must be rejected", "impl": str(impl)[:300], "model": str(model)[:300]},
+                   key=key, tags=tags)
 
     if named_crash is not None:
         return bad("crash", {"what": "evidence given by state name fails after the state names were dropped "
@@ -638,8 +815,38 @@ def run_infer(case, drv, shared=None):
     def impl_vals():
         return {k: [float(x) for x in f.values.ravel()] for k, f in impl[1].items()}
 
+    def veq(a, b):
+        if case.get("tiny"):
+            # relative to the exact value, entry by entry (absolute 1e-9 would hide everything below 1e-9)
+            return len(a) == len(b) and all(abs(float(x) - float(y)) <= 1e-7 * abs(float(y)) + 1e-290 for x, y in zip(a, b))
+        return vec_eq(a, b)
+
     def agrees(a, b):
-        return set(a) == set(b) and all(vec_eq(a[k], b[k]) for k in a)
+        return set(a) == set(b) and all(veq(a[k], b[k]) for k in a)
+
+    # --- forward_inference(..., "potential"): the interface potentials, by named assignment
+    if pot_impl is not None and impl[0] == "ok" and model[0] == "ok":
+        mp = drv.call_e("c17_potentials", [n, card, edges_of(t), wire, qs, ev])
+        if mp[0] != "ok" or len(mp[1]) != len(pot_impl) or sorted(pot_impl) != list(range(len(mp[1]))):
+            return bad("impl!=model", {"what": "potential_dict", "impl_keys": sorted(map(str, pot_impl)), "model": str(mp)[:200]},
+                       key=key, tags=tags)
+        import itertools
+        for ts, (mscope, mvals) in enumerate(mp[1]):
+            f = pot_impl[ts]
+            iscope = [tuple(unname(case, n, x)) for x in f.scope()]
+            itab = {}
+            flat = [float(x) for x in f.values.ravel()]
+            for idx, combo in enumerate(itertools.product(*[range(card[v]) for v, _ in iscope])):
+                itab[frozenset(zip(iscope, combo))] = flat[idx]
+            mtab = {}
+            msc = [tuple(x) for x in mscope]
+            for idx, combo in enumerate(itertools.product(*[range(card[v]) for v, _ in msc])):
+                mtab[frozenset(zip(msc, combo))] = common.frac(mvals[idx])
+            if set(itab) != set(mtab) or not all(veq([itab[k]], [mtab[k]]) for k in itab):
+                return bad("impl!=model", {"what": "interface potential of slice %d" % ts, "impl": str(sorted(itab.items(), key=str))[:400],
+                                           "model": str(sorted(((k, float(v)) for k, v in mtab.items()), key=str))[:400]},
+                           key=key, tags=tags)
+        tags.append("potentials-checked")
 
     # --- class: inter-edge heads != tails
     if cls == "iface":
@@ -794,6 +1001,23 @@ def run_init(case, drv):
         return bad("impl!=model", {"impl": str(impl)[:600], "model": str(model)[:600]}, key=key, tags=tags)
     added = impl[1][len(given):]
     tags.append("added=%d" % len(added))
+    if added:
+        snap = [[float(x) for x in c.values.ravel()] for c in dbn.cpds[:len(given)]]
+        for c in dbn.cpds[len(given):]:
+            c.values[...] = 0.5
+        if [[float(x) for x in c.values.ravel()] for c in dbn.cpds[:len(given)]] != snap:
+            detail = {"what": "writing into a completed CPD changed the CPD it was copied from"}
+            if case.get("backend") == "torch":
+                # exact class: torch backend, where the TabularCPD constructor keeps the caller's tensor (probe)
+                import torch
+                from pgmpy.factors.discrete import TabularCPD
+                probe = torch.tensor([[0.25], [0.75]], dtype=torch.float64)
+                pc = TabularCPD("probe", 2, probe)
+                probe[0, 0] = 9.0
+                if float(pc.values.ravel()[0]) == 9.0:
+                    return bad("shared-buffer", dict(detail, backend="torch", cause="TabularCPD(values=<tensor>) aliases its input"),
+                               finding=F_TORCH, key=key, tags=tags + ["torch-alias"])
+            return bad("shared-buffer", detail, key=key, tags=tags)
     worst = None
     for c in added:
         v, s = c["var"]
@@ -828,8 +1052,7 @@ def run_init(case, drv):
 # ------------------------------------------------------------------ get_constant_bn
 def _constbn_parse(case, sname):
     a, b = sname.rsplit("_", 1)
-    pool = STR_NAMES if case.get("style", "str") == "str" else [str(x) for x in INT_NAMES]
-    return [pool.index(a), int(b)]
+    return [str_pool(case).index(a), int(b)]
 
 
 def _constbn_check(case, bn, model, cpds, card, k, key, tags):
@@ -883,7 +1106,12 @@ def run_constbn(case, drv):
     t2 = dict(t, n=len(names), card=card)
     dbn = build_dbn(case, t2, cpds)
     try:
-        bn = dbn.get_constant_bn(t_slice=k)
+        if k == 0 and case.get("default_arg"):
+            bn = dbn.get_constant_bn()
+        elif case.get("default_arg"):
+            bn = dbn.get_constant_bn(k)
+        else:
+            bn = dbn.get_constant_bn(t_slice=k)
         impl = ("ok", bn)
     except ValueError as e:
         if "CPD defined on variable not in the model" not in str(e):
@@ -931,6 +1159,36 @@ def run_graph(case, drv):
         model = ("ok", [sorted(x) for x in model[1]])
     if impl != model:
         return bad("impl!=model", {"impl": str(impl)[:500], "model": str(model)[:500]}, key=key, tags=tags)
+    # state after add_edges_from: all edges, or exactly those before the first rejected one
+    un = lambda x: unname(case, n, x)
+    part = drv.call("c17_graph_partial", [case["extra"], case["edges"]])
+    got = [sorted(un(x) for x in d.nodes()), sorted([un(u), un(v)] for u, v in d.edges())]
+    want = [sorted(part[1]), sorted(part[2])]
+    if got != want or bool(part[0]) != (impl[0] == "ok"):
+        return bad("impl!=model", {"what": "graph after add_edges_from", "impl": str(got)[:400], "model": str(want)[:400]},
+                   key=key, tags=tags)
+    # default / explicit arguments of the getters, and the slice-1 views
+    def canon(x):
+        return [un(x[0]), un(x[1])] if isinstance(x, tuple) and len(x) == 2 and not isinstance(x[1], int) else un(x)
+
+    same = lambda a, b: sorted(map(canon, a)) == sorted(map(canon, b))
+    if not (same(d.get_intra_edges(), d.get_intra_edges(0)) and same(d.get_intra_edges(time_slice=0), d.get_intra_edges(0))
+            and same(d.get_interface_nodes(), d.get_interface_nodes(0)) and same(d.get_slice_nodes(), d.get_slice_nodes(0))):
+        return bad("default-argument", {"what": "getter() differs from getter(0)"}, key=key, tags=tags)
+    i1 = sorted([un(u), un(v)] for u, v in d.get_intra_edges(1))
+    i0 = sorted([[u[0], 1], [v[0], 1]] for u, v in ([un(a), un(b)] for a, b in d.get_intra_edges(0)))
+    names_now = sorted(set(un(x)[0] for x in d.nodes()))
+    s3 = sorted(un(x) for x in d.get_slice_nodes(3))
+    if i1 != i0 or s3 != [[v, 3] for v in names_now]:
+        return bad("impl!=model", {"what": "get_intra_edges(1) / get_slice_nodes(3)", "intra1": i1, "expected": i0, "slice3": s3},
+                   key=key, tags=tags)
+    for call in (lambda: d.get_intra_edges(-1), lambda: d.get_interface_nodes(-1), lambda: d.get_slice_nodes(-1),
+                 lambda: d.get_cpds(time_slice=-1)):
+        try:
+            call()
+            return bad("accepted-invalid", {"what": "negative time slice accepted by a getter"}, key=key, tags=tags)
+        except ValueError:
+            pass
     return ok(nontrivial=impl[0] == "ok" and len(impl[1][1]) > 0, key=key,
               tags=tags + (["rejected-edge"] if impl[0] == "err" else ["agree"]))
 
@@ -938,10 +1196,16 @@ def run_graph(case, drv):
 def run_case(case, drv):
     common.quiet()
     k = case["kind"]
+    from pgmpy import config
     try:
+        if case.get("backend") == "torch":
+            config.set_backend("torch")
         return _run_case(case, drv)
     except CpdNodeMissing:
         return ok(nontrivial=False, key=template_key(case), tags=[k, "cpd-on-missing-slice1-node"])
+    finally:
+        if case.get("backend") == "torch":
+            config.set_backend("numpy")
 
 
 def run_session(case, drv):
@@ -964,8 +1228,16 @@ def run_session(case, drv):
     finding = None
     for i, st in enumerate(steps):
         sub = {"kind": "infer", "t": case["t"], "qs": st["qs"], "ev": st["ev"], "mode": st["mode"],
-               "style": case.get("style", "str"), "named": False, "use_init": case.get("use_init", False)}
+               "style": case.get("style", "str"), "named": False, "use_init": case.get("use_init", False),
+               "nd": case.get("nd"), "build": case.get("build", "nodes_first"), "potential": i % 3 == 1,
+               "empty_ev_dict": i % 2 == 0}
         o = run_infer(sub, drv, shared)
+        # the caller owns the returned factors: overwrite them, later answers must not change
+        for f in (shared.pop("last", None) or {}).values():
+            try:
+                f.values[...] = 0.125
+            except Exception:
+                pass
         tags.update(x for x in o.get("tags", []) if x.startswith(("cls=", "mode=", "T=", "n=")) or x in (
             "agree", "spec-checked", "zero-probability-evidence"))
         if not o["ok"]:
@@ -1038,7 +1310,7 @@ def run_constbn_session(case, drv):
         if kk == 0:
             # the k = 0 constant network IS the network unrolled to T = 1
             from pgmpy.inference import VariableElimination
-            pool = STR_NAMES if case.get("style", "str") == "str" else [str(x) for x in INT_NAMES]
+            pool = str_pool(case)
             v = case["target"] % n
             got = [float(x) for x in VariableElimination(bn2).query(["%s_1" % pool[v]], show_progress=False).values]
             want = unrolled_reference(t, 1, [v, 1], [], False)
@@ -1046,7 +1318,7 @@ def run_constbn_session(case, drv):
                 return bad("after-mutation:marginal", {"var": [v, 1], "constant_bn": got, "unrolled": want}, key=key, tags=tags)
     if case.get("simulate"):
         df = dbn.simulate(n_samples=3, n_time_slices=2, seed=0, show_progress=False)
-        spool = [str(x) for x in (STR_NAMES if case.get("style", "str") == "str" else INT_NAMES)]
+        spool = str_pool(case)
         cols = sorted([spool.index(str(c[0])), int(c[1])] for c in df.columns)
         want = sorted([v, s] for v in range(n) for s in (0, 1))
         if cols != want:
@@ -1059,12 +1331,144 @@ def run_constbn_session(case, drv):
     return ok(key=key, tags=tags + ["agree"])
 
 
+def _tables_for(rng, t, v, s, pars):
+    card = t["card"]
+    return {"var": [v, s], "pars": pars, "vals": _table(rng, card[v], [card[u] for u, _ in pars], False)}
+
+
+def run_edit_session(case, drv):
+    """The DBN object is used (getters, get_constant_bn, an engine and a query), then edited through the public
+    mutators (remove_cpds by object or by node + add_cpds; add_edge; networkx remove_edge), then used again: every
+    answer is the one of a freshly built object for the CURRENT template (model)."""
+    from pgmpy.inference import DBNInference
+    t1 = case["t"]
+    n, card = t1["n"], t1["card"]
+    key = template_key(case)
+    tags = ["edit-session", "op=" + case["op"], "n=%d" % n]
+    rng = random.Random(case["tseed"])
+    dbn = build_dbn(case, t1, t1["cpds"])
+
+    def use(t, qd, phase):
+        """getters, constant network and a fresh engine on the current object against template t"""
+        un = lambda x: unname(case, n, x)
+        g = drv.call_e("c17_graph", [list(range(n)), edges_of(t)])
+        got = [sorted([un(u), un(v)] for u, v in dbn.get_intra_edges(0)), sorted([un(u), un(v)] for u, v in dbn.get_inter_edges()),
+               sorted(un(x) for x in dbn.get_interface_nodes(0)), sorted(un(x) for x in dbn.get_interface_nodes(1))]
+        if g[0] != "ok" or got != [sorted(x) for x in g[1][2:6]]:
+            return bad(phase + ":impl!=model", {"what": "getters", "impl": str(got)[:300], "model": str(g)[:300]}, key=key, tags=tags)
+        wire = [wire_cpd(case, c, card) for c in t["cpds"]]
+        m = drv.call_e("c17_constbn", [list(range(n)), edges_of(t), wire, 0])
+        try:
+            bn = dbn.get_constant_bn()
+            if m[0] != "ok":
+                return bad(phase + ":impl!=model", {"what": "get_constant_bn", "model": str(m)}, key=key, tags=tags)
+            o = _constbn_check(case, bn, m, t["cpds"], card, 0, key, tags)
+            if o is not None:
+                o["kind"] = phase + ":" + str(o["kind"])
+                return o
+        except ValueError as e:
+            if "CPD defined on variable not in the model" not in str(e) or m != ("err", 2):
+                raise
+        sub = {"kind": "infer", "t": t, "qs": qd["qs"], "ev": qd["ev"], "mode": qd["mode"], "style": case.get("style", "str"),
+               "named": False, "use_init": False}
+        shared = {}
+        try:
+            shared["engine"] = (DBNInference(dbn), None)
+        except ValueError as e:
+            if "CPD defined on variable not in the model" not in str(e):
+                raise
+            shared["engine"] = (None, ("err", 3))
+        o = run_infer(sub, drv, shared)
+        if not o["ok"]:
+            o = dict(o, kind=phase + ":" + str(o["kind"]))
+        return o
+
+    o1 = use(t1, case["q1"], "before")
+    if not o1["ok"] and o1.get("finding") is None:
+        return dict(o1, key=key)
+    # ---- edit
+    t2 = dict(t1, cpds=list(t1["cpds"]), inter=list(t1["inter"]), edges=[e for e in edges_of(t1)])
+    t2.pop("eorder", None)
+    op = case["op"]
+    heads = sorted(set(v for _, v in t1["inter"]))
+    if op == "remove_inter" and len(t1["inter"]) < 2:
+        op = "replace_cpd"
+    if op == "add_inter":
+        cand = [[u, v] for u in range(n) for v in range(n) if [u, v] not in t1["inter"]]
+        if not cand:
+            op = "replace_cpd"
+    tags.append("applied=" + op)
+
+    def replace(old, new):
+        obj = [c for c in dbn.cpds if tuple(unname(case, n, c.variable)) == tuple(old["var"])][0]
+        if case.get("by_node"):
+            dbn.remove_cpds((nm(case, old["var"][0]), old["var"][1]))
+        else:
+            dbn.remove_cpds(obj)
+        dbn.add_cpds(mk_tabular(case, new, card))
+        t2["cpds"] = [c for c in t2["cpds"] if c["var"] != old["var"]] + [new]
+
+    if op == "replace_cpd":
+        old = t1["cpds"][case["pick"] % len(t1["cpds"])]
+        replace(old, _tables_for(rng, t1, old["var"][0], old["var"][1], old["pars"]))
+    elif op == "add_inter":
+        u, v = cand[case["pick"] % len(cand)]
+        dbn.add_edge((nm(case, u), 0), (nm(case, v), 1))
+        t2["inter"].append([u, v])
+        t2["edges"].append([[u, 0], [v, 1]])
+        old = [c for c in t1["cpds"] if c["var"] == [v, 1]][0]
+        replace(old, _tables_for(rng, t1, v, 1, old["pars"] + [[u, 0]]))
+    else:
+        u, v = t1["inter"][case["pick"] % len(t1["inter"])]
+        dbn.remove_edge((nm(case, u), 0), (nm(case, v), 1))
+        t2["inter"].remove([u, v])
+        t2["edges"].remove([[u, 0], [v, 1]])
+        old = [c for c in t1["cpds"] if c["var"] == [v, 1]][0]
+        replace(old, _tables_for(rng, t1, v, 1, [p for p in old["pars"] if p != [u, 0]]))
+    o2 = use(t2, case["q2"], "after-edit")
+    if not o2["ok"]:
+        return dict(o2, key=key, tags=sorted(set(tags + o2.get("tags", []))))
+    if not o1["ok"]:
+        return dict(o1, key=key)
+    return ok(key=key, tags=sorted(set(tags + ["agree"])))
+
+
+def run_reject_misc(case, drv):
+    """add_cpds(*cpds) with an invalid CPD in a LATER position adds nothing; non-CPD arguments are rejected"""
+    from pgmpy.factors.discrete import TabularCPD
+    t = case["t"]
+    n, card = t["n"], t["card"]
+    key = template_key(case)
+    tags = ["reject-misc", "pos=%d" % case["pos"]]
+    k = case["k"]
+    dbn = build_dbn(case, t, t["cpds"][:k])
+    before = [id(c) for c in dbn.cpds]
+    rest = [mk_tabular(case, c, card) for c in t["cpds"][k:k + 2]]
+    bad_cpd = TabularCPD(("not-a-node", 0), 2, [[0.5], [0.5]]) if case["pos"] != 2 else "not a cpd"
+    args = rest[:1] + [bad_cpd] + rest[1:] if case["pos"] else [bad_cpd] + rest
+    try:
+        dbn.add_cpds(*args)
+        return bad("accepted-invalid", {"what": "add_cpds accepted an invalid argument", "arg": str(bad_cpd)}, key=key, tags=tags)
+    except CpdNodeMissing:
+        raise
+    except ValueError:
+        pass
+    if [id(c) for c in dbn.cpds] != before:
+        return bad("partial-effect", {"what": "add_cpds raised but kept some of the CPDs", "before": len(before),
+                                      "after": len(dbn.cpds)}, key=key, tags=tags)
+    return ok(key=key, tags=tags + ["rejected-call"])
+
+
 def _run_case(case, drv):
     k = case["kind"]
     if k == "session":
         return run_session(case, drv)
     if k == "constbn_session":
         return run_constbn_session(case, drv)
+    if k == "edit_session":
+        return run_edit_session(case, drv)
+    if k == "reject_misc":
+        return run_reject_misc(case, drv)
     if k == "infer":
         return run_infer(case, drv)
     if k == "init":
